@@ -17,6 +17,7 @@ from models import harness, progs
 LEVEL = 'model_checking'
 
 ITEMS = progs.all_items()
+ITEMS_SHIFT = progs.all_items(shift=True)      # C01 only: indentation changes directly after a want
 
 
 def user_names(ns):
@@ -54,7 +55,11 @@ class ProgSpec(Spec):
     assumptions = ('prompt styles are not mixed inside one statement; a bare "..." never starts a new '
                    'statement (DESIGN.md 2.7)',)
 
-    def __init__(self, name, n_items, max_cost, frames, min_items=1):
+    items = ITEMS
+
+    def __init__(self, name, n_items, max_cost, frames, min_items=1, shift=False):
+        if shift:
+            self.items = ITEMS_SHIFT
         self.name = name
         self.max_len = n_items + 1
         self.max_cost = max_cost
@@ -62,7 +67,7 @@ class ProgSpec(Spec):
         self.min_items = min_items
         self.rule = ('history = frame then <=%d items (template x prompt style x want x separator: %d item '
                      'variants over %d templates), total deviation cost <= %d, frames %r; non-trivial = '
-                     'program with >=2 statements or a want' % (n_items, len(ITEMS), len(progs.TEMPLATES),
+                     'program with >=2 statements or a want' % (n_items, len(self.items), len(progs.TEMPLATES),
                                                                 max_cost, frames))
 
     def init(self):
@@ -71,7 +76,7 @@ class ProgSpec(Spec):
     def enabled(self, S, hist):
         if S is None:
             return [('frame',) + tuple(f) for f in self.frames]
-        return [it for it in ITEMS if progs.item_enabled(S, it)]
+        return [it for it in self.items if progs.item_enabled(S, it)]
 
     def cost(self, ev):
         if ev[0] == 'frame':
@@ -138,6 +143,98 @@ class ProgSpec(Spec):
                 atoms.append({'sig': 'prog:bindings', 'msg': 'differing bindings: %r' % (diff[:6],)})
         return {'atoms': atoms, 'outcome': '%s/%d/%d' % (v, len(r.trace or ()), len(r.stdout)), 'case': case,
                 'nontrivial': nontrivial}
+
+
+class ShiftSpec(ProgSpec):
+    """programs in which the indentation changes directly after a want (no blank line): the next prompt is
+    4 columns deeper or shallower than the example above it"""
+    title = 'programs whose indentation changes directly after a want'
+
+    def __init__(self, name, n_items, max_cost, frames, min_items=2):
+        ProgSpec.__init__(self, name, n_items, max_cost, frames, min_items, shift=True)
+        self.rule = self.rule.replace('non-trivial =', 'only programs with at least one indentation change after a want; non-trivial =')
+
+    def final(self, S, hist):
+        return ProgSpec.final(self, S, hist) and any(it[3] in progs.SHIFT_SEPS for it in hist[1:])
+
+
+# ----------------------------------------------------------------------------------------------
+_MODCACHE = {}
+
+
+def module_for_programs():
+    """A module under test that already defines every name the program templates bind (with a sentinel
+    value) and the tracer.  Returns (path, modname, sentinel source)."""
+    import os
+    if 'm' not in _MODCACHE:
+        names = set()
+        for name, _ in progs.TEMPLATES:
+            for k in (1, 2, 3):
+                ns, _outs = progs.ref_exec(progs.stmts_of(progs.instantiate(name, k)))
+                names.update(n for n in user_names(ns))
+        sent = ''.join('%s = "module-level %s"\n' % (n, n) for n in sorted(names))
+        src = 'TRACE = []\n' + harness.PRE + sent
+        modname = harness.unique_modname('c01mod', src)
+        d = os.path.join(harness.scratch_root(), 'c01mod-%d' % os.getpid())
+        os.makedirs(d, exist_ok=True)
+        path = os.path.join(d, modname + '.py')
+        with open(path, 'w') as f:
+            f.write(src)
+        _MODCACHE['m'] = (path, modname, sent)
+    return _MODCACHE['m']
+
+
+class ModuleBoundSpec(ProgSpec):
+    """The same programs run as the doctest of a *module* whose globals already hold every name the program
+    binds: the doctest namespace starts as a copy of the module's and must then evolve exactly like the plain
+    program started from that copy (a rebinding in one part stays visible in the next; nothing is re-seeded
+    from the module; the module itself is not rebound)."""
+    title = 'programs run as the doctest of a module that pre-defines every name they bind'
+
+    def run_case(self, hist):
+        import sys
+        frame = tuple(hist[0][1:])
+        items = [tuple(it) for it in hist[1:]]
+        path, modname, sent = module_for_programs()
+        b = progs.build(frame, items, extra_pre=sent)
+        text = b['text']
+        case = {'doctest': text, 'module': 'tracer + sentinel bindings for every name the templates bind'}
+        atoms = []
+        mod = sys.modules.get(modname)
+        if mod is not None:
+            del mod.TRACE[:]
+        r = harness.run_doctest(text, ns=harness.NS(), modpath=path, callname='f')
+        nontrivial = len(b['stmts']) >= 2 or bool(b['wants'])
+        if r.raised is not None:
+            return {'atoms': [{'sig': 'modprog:run-raised:' + type(r.raised).__name__, 'msg': repr(r.raised)}],
+                    'outcome': 'raised', 'case': case, 'nontrivial': nontrivial}
+        v = harness.verdict_of(r.summary)
+        exp_v = 'passed' if b['anycode'] else 'skipped'
+        ref_trace = b['ns']['TRACE']
+        if v != exp_v:
+            atoms.append({'sig': 'modprog:verdict:%s-expected-%s' % (v, exp_v), 'msg': '%s: %s' % (r.exc_type, str(r.exc)[:300])})
+        if b['anycode']:
+            if r.trace != ref_trace:
+                atoms.append({'sig': 'modprog:trace', 'msg': 'executed %r, plain program executes %r' % (r.trace, ref_trace)})
+            elif v == exp_v:
+                got_names = user_names(r.snap)
+                ref_names = user_names(b['ns'])
+                if got_names != ref_names:
+                    diff = sorted(set(got_names.items()) ^ set(ref_names.items()))
+                    atoms.append({'sig': 'modprog:bindings', 'msg': 'differing final bindings: %r' % (diff[:6],)})
+                if r.stdout not in stdout_variants(b['outs'], b['echo_ok']):
+                    atoms.append({'sig': 'modprog:stdout', 'msg': 'recorded %r' % (r.stdout,)})
+            mod = sys.modules.get(modname)
+            if mod is not None:
+                changed = [n for n, val in vars(mod).items() if isinstance(val, str) and val.startswith('module-level ')
+                           and val != 'module-level ' + n]
+                rebound = [l.split(' = ')[0] for l in sent.splitlines() if vars(mod).get(l.split(' = ')[0]) != 'module-level ' + l.split(' = ')[0]]
+                if changed or rebound:
+                    atoms.append({'sig': 'modprog:module-globals-rebound', 'msg': repr((changed + rebound)[:6])})
+                    for l in sent.splitlines():
+                        n = l.split(' = ')[0]
+                        setattr(mod, n, 'module-level ' + n)
+        return {'atoms': atoms, 'outcome': '%s/%d' % (v, len(r.trace or ())), 'case': case, 'nontrivial': nontrivial}
 
 
 # ----------------------------------------------------------------------------------------------
@@ -236,8 +333,13 @@ def specs(tier):
                 ProgSpec('prog-len2', 2, 99, std),
                 ProgSpec('prog-frames', 2, 4, [f for f in progs.FRAMES if f != (0, False)]),
                 ProgSpec('prog-len3', 3, 4, std, min_items=3),
-                ProgSpec('prog-len4', 4, 3, std, min_items=4)]
+                ProgSpec('prog-len4', 4, 3, std, min_items=4),
+                ShiftSpec('prog-shift', 3, 6, std),
+                ModuleBoundSpec('prog-module', 2, 99, std),
+                ModuleBoundSpec('prog-module-len3', 3, 3, std, min_items=3)]
     return [CaptureSpec(5),
             ProgSpec('prog-len2', 2, 99, std),
             ProgSpec('prog-frames', 2, 4, [f for f in progs.FRAMES if f != (0, False)]),
-            ProgSpec('prog-len3', 3, 3, std, min_items=3)]
+            ProgSpec('prog-len3', 3, 3, std, min_items=3),
+            ShiftSpec('prog-shift', 3, 5, std),
+            ModuleBoundSpec('prog-module', 2, 4, std)]
